@@ -63,7 +63,7 @@ Definition as_env (t : tree) : option cenv :=
   | _ => None
   end.
 Definition of_exn (e : exn) : tree :=
-  L [I (match e with IdentifierError => 2 | InvalidRequestError => 3 | CompileError => 4 end)%Z].
+  L [I (match e with IdentifierError => 2 | InvalidRequestError => 3 | CompileError => 4 | ArgumentError => 5 end)%Z].
 
 Definition run_ddl (d ix cv g env md5 : tree) : tree :=
   match as_dialect d, as_bool ix, as_conv cv, as_gname g, as_env env, as_list_of as_N md5 with
@@ -157,20 +157,64 @@ Fixpoint pick (want : req -> bool) (rs : list req) (os : list str) : list str :=
   | _, _ => []
   end.
 
-Definition run_stmt (ll maxid tn aliased cols items whs : tree) : tree :=
-  match as_optZ ll, as_Z maxid, as_str tn, as_bool aliased, as_list_of as_str cols,
-        as_list_of as_item items, as_list_of as_wh whs with
-  | Some ll, Some maxid, Some tn, Some aliased, Some cols, Some items, Some whs =>
+(* [extra] is appended to a successful observation *)
+Definition run_stmt_with (ll : Z) (extra : list tree) (tn aliased cols items whs : tree) : tree :=
+  match as_str tn, as_bool aliased, as_list_of as_str cols, as_list_of as_item items, as_list_of as_wh whs with
+  | Some tn, Some aliased, Some cols, Some items, Some whs =>
       let rs := stmt_reqs tn aliased cols items whs in
-      match run (stmt_benv cols items whs) (py_or ll maxid) init_state rs with
+      match run (stmt_benv cols items whs) ll init_state rs with
       | Raise e => of_exn e
       | Ok (_, os) =>
-          L [I 0%Z;
-             L (map of_str (pick (fun r => match r with RName 0%N _ => true | _ => false end) rs os));
-             L (map of_str (firstn 1 (pick (fun r => match r with RName 1%N _ => true | _ => false end) rs os)));
-             L (map of_str (pick (fun r => match r with RBind _ => true | _ => false end) rs os))]
+          L ([I 0%Z;
+              L (map of_str (pick (fun r => match r with RName 0%N _ => true | _ => false end) rs os));
+              L (map of_str (firstn 1 (pick (fun r => match r with RName 1%N _ => true | _ => false end) rs os)));
+              L (map of_str (pick (fun r => match r with RBind _ => true | _ => false end) rs os))] ++ extra)
       end
-  | _, _, _, _, _, _, _ => bad_input
+  | _, _, _, _, _ => bad_input
+  end.
+Definition run_stmt (ll maxid tn aliased cols items whs : tree) : tree :=
+  match as_optZ ll, as_Z maxid with
+  | Some ll, Some maxid => run_stmt_with (py_or ll maxid) [] tn aliased cols items whs
+  | _, _ => bad_input
+  end.
+
+(* ---- op 3: the same conv() names rendered several times on ONE dialect whose limits are changed
+   between the renderings; step = [[maxid; idx; con]; is_index; name index] ---- *)
+Definition as_step (t : tree) : option (dialect * bool * nat) :=
+  match t with
+  | L [d; ix; k] => bind (as_dialect d) (fun d => bind (as_bool ix) (fun ix => bind (as_nat k) (fun k =>
+                      Some (d, ix, k))))
+  | _ => None
+  end.
+Fixpoint lookup_md5 (tbl : list (str * str)) (s : str) : str :=
+  match tbl with
+  | [] => []
+  | (n, d) :: r => if str_eqb s n then d else lookup_md5 r s
+  end.
+Definition env_none : cenv := {| e_table := []; e_cols := []; e_ref := [] |}.
+Definition run_multi (names md5s steps : tree) : tree :=
+  match as_list_of as_str names, as_list_of (as_list_of as_N) md5s, as_list_of as_step steps with
+  | Some names, Some md5s, Some steps =>
+      let md5 := lookup_md5 (combine names md5s) in
+      L (map (fun st => match st with (d, ix, k) =>
+                match ddl_name md5 d ix None (GConv (nth k names [])) env_none with
+                | Ok (Some s) => L [I 0%Z; of_str s]
+                | Ok None => L [I 1%Z]
+                | Raise e => of_exn e
+                end end) steps)
+  | _, _, _ => bad_input
+  end.
+
+(* ---- op 4: an engine whose dialect detects its identifier limit on the first connection, then a
+   SELECT compiled through it ---- *)
+Definition run_engine (cls user ll det tn aliased cols items whs : tree) : tree :=
+  match as_Z cls, as_optZ user, as_optZ ll, as_optZ det with
+  | Some cls, Some user, Some ll, Some det =>
+      match initialize cls user ll det with
+      | Raise e => of_exn e
+      | Ok m => run_stmt_with (py_or ll m) [I m] tn aliased cols items whs
+      end
+  | _, _, _, _ => bad_input
   end.
 
 Definition run_case (t : tree) : tree :=
@@ -178,5 +222,7 @@ Definition run_case (t : tree) : tree :=
   | L [I 0%Z; d; ix; cv; g; env; md5] => run_ddl d ix cv g env md5
   | L [I 1%Z; ll; maxid; ctrs; rs] => run_lowlevel ll maxid ctrs rs
   | L [I 2%Z; ll; maxid; tn; aliased; cols; items; whs] => run_stmt ll maxid tn aliased cols items whs
+  | L [I 3%Z; names; md5s; steps] => run_multi names md5s steps
+  | L [I 4%Z; cls; user; ll; det; tn; aliased; cols; items; whs] => run_engine cls user ll det tn aliased cols items whs
   | _ => bad_input
   end.
